@@ -48,12 +48,38 @@ type State struct {
 	reach string // Bool term: this point is reached and all assumptions so far hold
 	alloc string // Int term: allocation counter
 	ver   int    // heap version: states with equal ver have identical heaps
+	// source-level locals (from DebugRef / named phis) as they are at this program point
+	locals    map[string]Val
+	localAddr map[string]bool
+}
+
+func (st *State) setLocal(name string, v Val, isAddr bool) {
+	if st.locals == nil {
+		st.locals = map[string]Val{}
+		st.localAddr = map[string]bool{}
+	}
+	st.locals[name] = v
+	if isAddr {
+		st.localAddr[name] = true
+	} else {
+		delete(st.localAddr, name)
+	}
 }
 
 func (st *State) clone() *State {
 	n := &State{heap: make(map[string]string, len(st.heap)), base: st.base, reach: st.reach, alloc: st.alloc, ver: st.ver}
 	for k, v := range st.heap {
 		n.heap[k] = v
+	}
+	if st.locals != nil {
+		n.locals = make(map[string]Val, len(st.locals))
+		n.localAddr = make(map[string]bool, len(st.localAddr))
+		for k, v := range st.locals {
+			n.locals[k] = v
+		}
+		for k, v := range st.localAddr {
+			n.localAddr[k] = v
+		}
 	}
 	return n
 }
